@@ -11,7 +11,7 @@
 -/
 import FcModel.Mesh
 import FcGen.Tables
-namespace Fc
+namespace Fc.C07
 
 structure MioMesh where
   dim : Nat
@@ -118,4 +118,4 @@ def toMeshio (f : MeshFields) : Option MioMesh :=
     if !cd.isEmpty && cells.length != types.length then none
     else some ⟨f.mesh.dim, f.mesh.points, cells, f.pointFields.map (fun pf => (pf.name, pf.values)), cd⟩
 
-end Fc
+end Fc.C07
